@@ -10,6 +10,9 @@
    explore <kind> <guarded> <nupd> <maxfire> <cap>
                                           -> n=<schedules> leaks=<leaking> first=<schedule|->
    counter                                -> the legacy race schedule and its final snapshot
+   spawns                                 -> file|func|line|kind|scope ; ...
+   pool <func> <line> <maxWorkers> <n> <fail|none>
+                                          -> shutdown=<0|1> leak=<0|1>
    kinds: the keys of PROGRESS_DICT (generated), plus `legacy` and `locked` (model literals) -/
 import OQuPyVerif.Model.Proto
 import OQuPyVerif.Model.Progress
@@ -105,8 +108,37 @@ def leaking (r : List Action × State) : Bool :=
 
 def showSched (as : List Action) : String := ",".intercalate (as.map actName)
 
+def kindName : SpawnKind → String
+  | .threadPool => "threadPool"
+  | .processPool => "processPool"
+  | .thread => "thread"
+  | .timer => "timer"
+  | .process => "process"
+  | .other => "other"
+
+def scopeName : SpawnScope → String
+  | .withStmt => "with"
+  | .progressProtocol => "progress"
+  | .stored => "stored"
+  | .localVar => "local"
+  | .other => "other"
+
 def stepLine (line : String) : String :=
   match words line with
+  | ["spawns"] =>
+    ";".intercalate (spawnTable.map (fun s =>
+      s!"{s.file}|{s.func}|{s.line}|{kindName s.kind}|{scopeName s.scope}"))
+  | ["pool", func, ln, mw, n, fail] =>
+    match ln.toNat?, mw.toNat?, n.toNat? with
+    | some ln, some mw, some n =>
+      let failO : Option (Option Nat) :=
+        if fail == "none" then some none else fail.toNat?.map some
+      match spawnTable.find? (fun s => s.func == func && s.line == ln), failO with
+      | some s, some fl =>
+        let p := runPool s.scope mw n fl
+        s!"shutdown={if p.shut then 1 else 0} leak={if p.workers > 0 then 1 else 0}"
+      | _, _ => "bad-op"
+    | _, _, _ => "bad-op"
   | ["table"] =>
     ";".intercalate (apiTable.map (fun u =>
       s!"{u.file}|{u.func}|{u.index}|{u.line}|{styleName u.style}"))
